@@ -48,7 +48,7 @@ PROPS = {
     "C02": P("fault_enumeration", 20, 600,
              "histories of 3-120 (soak: thousands) buffers on one Decoder: well-formed CMP frames (stub peer and real encoder), TECMP frames of all kinds, noise, 0..27-byte buffers, nullptr/0, "
              "each possibly hit by truncate / set-field(boundary values) / flip / pad / splice / stale replay / dup / delay, with receiver restarts; every call is checked (buffer exact-size on the heap and freed "
-             "after the call, unchanged, <= n/12 packets, non-null, payload object present) and every returned packet is re-digested after the free, after later decodes and after the decoder is destroyed; "
+             "after the call, unchanged, <= n/12 packets, non-null, payload object present, basic-block edges of library code executed by the call <= 4000 + 60*n) and every returned packet is re-digested after the free, after later decodes and after the decoder is destroyed; "
              "distinct = plan hash; non-trivial = at least one faulted, TECMP or undersized buffer was delivered",
              expect_probes=["faulted-frame-delivered", "tecmp-frame", "undersized-buffer", "kept-packets", "truncate", "set-field", "flip", "splice", "receiver-restart"]),
     "C03": P("fault_enumeration", 20, 600,
